@@ -73,7 +73,7 @@ fn gen_history(rng: &mut Rng, id: usize, max_n: usize) -> History {
     History { id, w32, calls }
 }
 
-fn run_history(h: &History) -> Vec<Outcome> {
+pub fn run_history(h: &History) -> Vec<Outcome> {
     let mut out = vec![];
     if h.w32 {
         let mut st = LinkageState::<f32>::new();
